@@ -151,6 +151,23 @@ CHECKS["C15"] = dict(
          "in both translation directions, with a freshly compiled file containing base + accepted rules.",
     design="4/C15", technique="Coq proof (append law on the API state machine) + differential comparison with the concatenated table file")
 
+CHECKS["C16"] = dict(
+    text="Machine-checked proof (Coq) of the reader laws for ARBITRARY contents: CR is ignored wherever it stands (CRLF = LF), ASCII "
+         "content as UTF-16LE/BE with BOM decodes like the 8-bit file, trailing and repeated whitespace is irrelevant for tokens, the "
+         "order of the dots of a cell is irrelevant, a \\xhhhh escape equals the literal character. Tied to the code by running "
+         "_lou_getALine / _lou_extParseDots / _lou_extParseChars against the extracted reader model on random and mutated bytes, and by "
+         "translating with 11 packagings of generated tables (plus shipped tables as wrapper / CRLF copy / list) in both directions. "
+         "The fold of entries over list members and includes is compared behaviourally, not modelled.",
+    design="4/C16", technique="Coq proof of reader equivalences + differential correspondence of the reader and of packaging variants")
+CHECKS["C13"] = dict(
+    text="Machine-checked proof (Coq): the reader is total and bounded for ANY bytes (lines <= MAXSTRING-1, well-formed tokens, operands "
+         "never grow, dot cells flagged); the outcome accounting (success iff no error-level message, failure delivers at least one) and "
+         "the error-counter sites of the CURRENT source are each paired with an error-level message. Fault enumeration on the real code: "
+         "14 line corruptions x every rule line of valid tables (kitchen-sink table of ~70 opcode kinds, generated, shipped), whole-file "
+         "faults, byte mutations, include loops; each compiled twice between uses of a known-good table under ASan/UBSan/LSan with a "
+         "watchdog. Partial: crash/hang/leak freedom of the operand compilers is observed, not proved.",
+    design="4/C13", technique="Coq proof (reader bounds, outcome accounting over error sites regenerated from the C source) + systematic fault enumeration under sanitizers")
+
 PENDING = {}
 
 
